@@ -1730,6 +1730,10 @@ class _FuncEval:
                     v = mk_ite(atom, v, rv) if k is None else mk_ite(atom, rv, v)
                 env.vars[n] = v
             final = State(env, st.cond)
+        if s.finalbody and any(isinstance(n_, (ast.Return, ast.Break, ast.Continue)) for b_ in s.finalbody for n_ in ast.walk(b_)):
+            # a `finally` clause that leaves by return / break / continue discards the exception (or return value) in flight: the
+            # exits recorded for the try body would not be the function's exits
+            self.s.unsupported.append(("Try(finally that leaves the block)", getattr(s, "lineno", 0)))
         if s.finalbody and final is not None:
             final = self.block(s.finalbody, final)
         elif s.finalbody:
